@@ -330,7 +330,28 @@ TRUSTED_BASE = [
 # ---------------------------------------------------------------------------------------------
 # Corpus, verdicts
 
+def replay_case():
+    """under `check.py <ID> --replay <path>` only the replayed case is run"""
+    p = os.environ.get("VERIF_REPLAY")
+    if not p:
+        return None
+    r = json.load(open(p))
+    inst = r.get("instance")
+    if isinstance(inst, dict) and "instance" in inst and "vehicleTypes" not in inst:
+        return inst          # a full case (instance + tours/ops/...)
+    if inst is None:
+        return None
+    return {"instance": inst}
+
+
+def ncases(n):
+    return 0 if os.environ.get("VERIF_REPLAY") else n
+
+
 def load_corpus(pid):
+    rc = replay_case()
+    if os.environ.get("VERIF_REPLAY"):
+        return [rc["instance"]] if rc else []
     d = os.path.join(VERIF, "corpus", pid)
     out = []
     if os.path.isdir(d):
@@ -341,6 +362,9 @@ def load_corpus(pid):
 
 
 def load_corpus_cases(pid):
+    if os.environ.get("VERIF_REPLAY"):
+        rc = replay_case()
+        return [rc] if rc and len(rc) > 1 else []
     d = os.path.join(VERIF, "corpus", pid)
     out = []
     if os.path.isdir(d):
